@@ -60,10 +60,28 @@ def save_fallback(repo):
     """run on the pinned, unchanged tree: store the output of every soft translator as its fallback"""
     os.makedirs(FALLBACK, exist_ok=True)
     for fn in extract_core.EXTRACTORS:
-        if getattr(fn, "soft", False):
+        if True:        # every translator has a fallback copy: a generated module that does not compile must not take `pmodel` down
             name, text, _ = fn(repo)
             write_if_changed(os.path.join(FALLBACK, name + ".lean"),
                              "-- FALLBACK copy (documented constants; used only when the translator does not recognise the source)\n" + text)
+
+
+def use_fallback(outdir, module):
+    """replace Gen/<module>.lean by its fallback copy; -> (ok, soft?)"""
+    fb = os.path.join(FALLBACK, module + ".lean")
+    if not os.path.exists(fb):
+        return False, False
+    write_if_changed(os.path.join(outdir, module + ".lean"), open(fb).read())
+    soft = any(getattr(fn, "soft", False) and _modmap().get(fn.__name__) == module for fn in extract_core.EXTRACTORS)
+    return True, soft
+
+
+def _modmap():
+    import json
+    try:
+        return json.load(open(MAPFILE))
+    except Exception:
+        return {}
 
 
 if __name__ == "__main__":
